@@ -8,22 +8,34 @@ def showOptNat : Option Nat → String
   | none => "-"
   | some n => toString n
 
+def showRows (rows : List Row) : String :=
+  if rows.isEmpty then "-" else ",".intercalate (rows.map (fun p => s!"{p.1}:{p.2}"))
+
+/-- the harness uses engine ids 0 and 1 -/
+def showEngine (s : State) (e : Nat) : String :=
+  s!"reg{e}={showBool (s.eng e).registered}\trun{e}={showOptNat (s.eng e).run}"
+
 def showState (s : State) (r : Reply) : String :=
   let rep := match r with
     | .ok => "ok"
     | .notRegistered => "not-registered"
-  s!"{rep}\treg={showBool s.registered}\trun={showOptNat s.run}\tplotlogs={showNatList s.plotLogs}\trecentruns={showNatList s.recentRuns}"
+  s!"{rep}\t{showEngine s 0}\t{showEngine s 1}\tplotlogs={showRows s.plotLogs}\trecentruns={showRows s.recentRuns}"
 
 def parseOp : List String → Option Op
-  | ["register"] => some .register
-  | ["disconnect"] => some .disconnect
-  | ["start", r] => r.toNat?.map .start
-  | ["stop", r] => r.toNat?.map .stop
+  | ["register", e] => e.toNat?.map .register
+  | ["disconnect", e] => e.toNat?.map .disconnect
+  | ["start", e, r] => match e.toNat?, r.toNat? with
+    | some e, some r => some (.start e r)
+    | _, _ => none
+  | ["stop", e, r] => match e.toNat?, r.toNat? with
+    | some e, some r => some (.stop e r)
+    | _, _ => none
   | _ => none
 
-/-- ops:  `register` | `disconnect` | `start <run ordinal>` | `stop <run ordinal>`   (repaired code)
+/-- ops:  `register <e>` | `disconnect <e>` | `start <e> <run ordinal>` | `stop <e> <run ordinal>`   (repaired code)
           the same prefixed with `asis` + tab: the code before fixes/C30-one-record-per-run.diff
-    answer: reply kind, registered flag, active run, PlotLogs.run_id column, RecentRuns.run_id column -/
+    answer: reply kind; registered flag and active run of engines 0 and 1; PlotLogs and RecentRuns rows as
+    `engine:run` in insertion order -/
 def step (s : State) (line : String) : State × String :=
   match fields line with
   | "asis" :: rest =>
